@@ -278,3 +278,22 @@ M("C07", "unknown-op-as-eq", EQF, "        raise UnsupportedOperatorError(f\"Unk
 M("C07", "the-as-first", EQF, "            return bound_query.one()", "            return bound_query.first()", "the-one-an-all")
 M("C07", "unknown-quantifier-all", EQF, "        raise UnsupportedQuantifierError(f\"Unknown quantifier: {type(self.quantifier)}\")", "        return bound_query.all()", "evaluate#quantifier")
 R("C07", "guard-with-tuple", EQF, "        if not isinstance(self.select_like, Entity):", "        if not isinstance(self.select_like, (Entity,)):")
+
+# ------------------------------------------------------------------------------------- C11
+MTF = "krrood/entity_query_language/match.py"
+M("C11", "exists-by-value", SYM, "            binding = tuple(val[i].id_ for i in variable_ids if i in val)\n            if val.is_true and binding not in seen_variable_bindings:\n                seen_variable_bindings.add(binding)\n", "            binding = val[self.variable._id_].value\n            if val.is_true and binding not in seen_variable_bindings:\n                seen_variable_bindings.add(binding)\n", "IDENT-DEDUP", allow_error=True)
+M("C11", "exists-list-of-values", SYM, "        seen_variable_bindings = set()\n        for val in self.condition._evaluate__(sources, parent=self):\n            binding = tuple(val[i].id_ for i in variable_ids if i in val)\n            if val.is_true and binding not in seen_variable_bindings:\n                seen_variable_bindings.add(binding)\n",
+  "        seen_variable_bindings = []\n        for val in self.condition._evaluate__(sources, parent=self):\n            var_val = val[self.variable._id_]\n            if val.is_true and var_val.value not in seen_variable_bindings:\n                seen_variable_bindings.append(var_val.value)\n", "IDENT-DEDUP")
+M("C11", "contains-swapped", MTF, "            condition = contains(self.attr, self.assigned_variable)\n", "            condition = contains(self.assigned_variable, self.attr)\n", "MATCH-TABLE")
+M("C11", "in-becomes-eq", MTF, "            condition = in_(self.attr, self.assigned_variable)\n", "            condition = self.attr == self.assigned_variable\n", "MATCH-TABLE")
+M("C11", "universal-ignored", MTF, "            and not (\n                isinstance(self.assigned_value, Match) and self.assigned_value.universal\n            )\n", "", "MATCH-TABLE")
+M("C11", "existential-dropped", MTF, "        if isinstance(self.assigned_value, Match) and self.assigned_value.existential:\n            condition = exists(self.attr, condition)\n", "", "MATCH-TABLE")
+M("C11", "existential-always", MTF, "        if isinstance(self.assigned_value, Match) and self.assigned_value.existential:", "        if isinstance(self.assigned_value, Match):", "MATCH-TABLE")
+M("C11", "type-filter-for-same-type", MTF, "            (self.assigned_value.type_ and self.assigned_value.type_ is not attr_type)\n            and issubclass(self.assigned_value.type_, attr_type)", "            self.assigned_value.type_\n            and issubclass(self.assigned_value.type_, attr_type)", "is_type_filter_needed")
+M("C11", "type-filter-never-when-typed", MTF, "        return (not attr_type) or (", "        return (not attr_type) and (", "is_type_filter_needed")
+M("C11", "no-flatten-for-nested", MTF, "        if self.attr._is_iterable_ and (\n            self.assigned_value.kwargs or self.is_type_filter_needed\n        ):", "        if self.attr._is_iterable_ and self.is_type_filter_needed:", "resolve")
+M("C11", "filter-on-unflattened", MTF, "                HasType(possibly_flattened_attr, self.assigned_value.type_)", "                HasType(self.attr, self.assigned_value.type_)", "resolve")
+M("C11", "in-operands-swapped", ENT, "    return Comparator(container, item, operator.contains)", "    return Comparator(item, container, operator.contains)", "in_#slots")
+M("C11", "contains-not-swapping", ENT, "    return in_(item, container)", "    return in_(container, item)", "contains#slots")
+R("C11", "elif-reordered", MTF, "        if self.attr._is_iterable_ and not self.is_iterable_value:\n            condition = contains(self.attr, self.assigned_variable)\n        elif not self.attr._is_iterable_ and self.is_iterable_value:\n            condition = in_(self.attr, self.assigned_variable)\n",
+  "        if not self.attr._is_iterable_ and self.is_iterable_value:\n            condition = in_(self.attr, self.assigned_variable)\n        elif self.attr._is_iterable_ and not self.is_iterable_value:\n            condition = contains(self.attr, self.assigned_variable)\n")
